@@ -56,7 +56,7 @@ Aux   == TriN \cup VecN \cup {"Dlangb", "Dlaswp"}
 \* vector or five dimensions exceed the argument slots of the sampled grid of LapackContractGen.tla
 Gsv   == {"Dggsvp3", "Dggsvd3"}                                                            \* m x n A, p x n B; U, V, Q by the jobs
 Schur == {"Dhseqr", "Dlaqr04"}                                                             \* n x n Hessenberg H, block ilo .. ihi
-QOnly == Gsv \cup Schur \cup {"Dtrevc3"}
+QOnly == Gsv \cup Schur \cup {"Dtrevc3", "Dlaqr23"}
 Drv   == SqN \cup Hess \cup GeMN \cup BandS \cup TriD \cup Aux \cup {"Dgels", "Dorgbr", "Dormbr", "Dormhr"} \cup QOnly
 LapackRoutines == LU \cup Chol \cup QRf \cup OrgQ \cup OrmQ \cup Tri \cup Refl \cup Drv
 
@@ -94,6 +94,7 @@ FlagKinds(r) ==
       [] r \in Gsv -> <<"gsvdu", "gsvdv", "gsvdq">>          \* 0 compute (GSVDU / GSVDV / GSVDQ) 1 GSVDNone
       [] r = "Dhseqr" -> <<"schurjob", "schurcomp">>         \* 0 EigenvaluesOnly 1 EigenvaluesAndSchur; 0 SchurNone 1 SchurHess 2 SchurOrig
       [] r = "Dlaqr04" -> <<"bool", "bool">>                 \* wantt, wantz
+      [] r = "Dlaqr23" -> <<"bool", "bool", "bool">>         \* wantt, wantz, recur > 0 (behaves as DLAQR3) or recur = 0 (DLAQR2)
       [] r = "Dtrevc3" -> <<"evside", "evhowmany">>          \* 0 EVRight 1 EVLeft 2 EVBoth; 0 EVAll 1 EVAllMulQ 2 EVSelected
       [] OTHER -> <<>>
 LegalCodes(kind) == CASE kind \in {"trans3", "svdjobu", "svdjobvt", "uplo3", "uploany", "mtype3", "schurcomp", "evside", "evhowmany"} -> {0, 1, 2}
@@ -128,6 +129,8 @@ DimNames(r) ==
       [] r = "Dhseqr" -> <<"n", "ilo", "ihi">>
       [] r = "Dlaqr04" -> <<"n", "ilo", "ihi", "iloz", "ihiz">>
       [] r = "Dtrevc3" -> <<"n", "mm">>                      \* mm: columns of VL / VR
+      \* aggressive early deflation: block ktop .. kbot of the n x n H, window nw, T is nw x nh, WV is nv x nw
+      [] r = "Dlaqr23" -> <<"n", "ktop", "kbot", "nw", "iloz", "ihiz", "nh", "nv">>
 
 \* flag lookups by kind (0 when the routine has no such flag)
 FlagOf(r, p, kind) ==
@@ -168,6 +171,13 @@ DimRange(r, p, i) ==
       [] r \in Schur /\ nm = "ihi" -> <<Min(Dim(r, p, "ilo"), Dim(r, p, "n") - 1), Dim(r, p, "n") - 1>>
       [] r = "Dlaqr04" /\ nm = "iloz" -> IF p.f[2] = 1 THEN <<0, Dim(r, p, "ilo")>> ELSE <<0 - NoHi, NoHi>>
       [] r = "Dlaqr04" /\ nm = "ihiz" -> IF p.f[2] = 1 THEN <<Dim(r, p, "ihi"), Dim(r, p, "n") - 1>> ELSE <<0 - NoHi, NoHi>>
+      \* Dlaqr23: 0 <= ktop <= kbot < n, 0 <= nw <= kbot-ktop+1, with wantz 0 <= iloz <= ktop and kbot <= ihiz < n, nh >= nw
+      [] r = "Dlaqr23" /\ nm = "ktop" -> <<0, Max(0, Dim(r, p, "n") - 1)>>
+      [] r = "Dlaqr23" /\ nm = "kbot" -> <<Min(Dim(r, p, "ktop"), Dim(r, p, "n") - 1), Dim(r, p, "n") - 1>>
+      [] r = "Dlaqr23" /\ nm = "nw" -> <<0, Dim(r, p, "kbot") - Dim(r, p, "ktop") + 1>>
+      [] r = "Dlaqr23" /\ nm = "iloz" -> IF p.f[2] = 1 THEN <<0, Dim(r, p, "ktop")>> ELSE <<0 - NoHi, NoHi>>
+      [] r = "Dlaqr23" /\ nm = "ihiz" -> IF p.f[2] = 1 THEN <<Dim(r, p, "kbot"), Dim(r, p, "n") - 1>> ELSE <<0 - NoHi, NoHi>>
+      [] r = "Dlaqr23" /\ nm = "nh" -> <<Dim(r, p, "nw"), NoHi>>
       \* Dtrevc3: mm columns must hold the computed vectors (all n of them unless fewer are selected)
       [] r = "Dtrevc3" /\ nm = "mm" -> <<0, NoHi>>
       [] OTHER -> <<0, NoHi>>
@@ -190,6 +200,7 @@ Mats(r) ==
       [] r \in Gsv -> <<"a", "b", "u", "v", "q">>
       [] r \in Schur -> <<"h", "z">>
       [] r = "Dtrevc3" -> <<"t", "vl", "vr">>
+      [] r = "Dlaqr23" -> <<"h", "z", "v", "t", "wv">>
       [] OTHER -> <<>>
 \* <<rows, columns>> of a matrix operand (<<0, 0>>: not referenced for these job flags; a band matrix with kd
 \* off-diagonals is stored as n rows of kd+1 elements)
@@ -246,6 +257,13 @@ MatDims(r, p, o) ==
               [] o = "q" -> IF p.f[3] = 0 THEN <<Dim(r, p, "n"), Dim(r, p, "n")>> ELSE <<0, 0>>)
       \* Schur routines: Z is referenced unless compz = SchurNone / wantz = false
       [] r \in Schur -> IF o = "h" \/ p.f[2] # 0 THEN <<Dim(r, p, "n"), Dim(r, p, "n")>> ELSE <<0, 0>>
+      \* Dlaqr23: "v and ldv represent an nw x nw work matrix, t and ldt an nw x nh work matrix, wv and ldwv an nv x nw work matrix"
+      [] r = "Dlaqr23" ->
+           (CASE o = "h" -> <<Dim(r, p, "n"), Dim(r, p, "n")>>
+              [] o = "z" -> IF p.f[2] = 1 THEN <<Dim(r, p, "n"), Dim(r, p, "n")>> ELSE <<0, 0>>
+              [] o = "v" -> <<Dim(r, p, "nw"), Dim(r, p, "nw")>>
+              [] o = "t" -> <<Dim(r, p, "nw"), Dim(r, p, "nh")>>
+              [] o = "wv" -> <<Dim(r, p, "nv"), Dim(r, p, "nw")>>)
       \* Dtrevc3: "VL and VR are n x mm matrices", VL not referenced for EVRight, VR not for EVLeft
       [] r = "Dtrevc3" ->
            (CASE o = "t" -> <<Dim(r, p, "n"), Dim(r, p, "n")>>
@@ -276,6 +294,7 @@ Vecs(r) ==
       [] r = "Dggsvp3" -> <<"tau">>
       [] r = "Dggsvd3" -> <<"alpha", "beta">>
       [] r \in Schur -> <<"wr", "wi">>
+      [] r = "Dlaqr23" -> <<"sr", "si">>
       [] OTHER -> <<>>
 \* documented minimum lengths of the routines in Drv (job flags and min/max of the dimensions matter)
 VecMinDrv(r, p, o) ==
@@ -310,6 +329,7 @@ VecMinDrv(r, p, o) ==
       [] r \in Gsv -> n                                      \* tau; "alpha and beta must have length n"
       [] r = "Dhseqr" -> n                                   \* "wr and wi must have length n"
       [] r = "Dlaqr04" -> Dim(r, p, "ihi") + 1               \* "wr and wi must have length ihi+1"
+      [] r = "Dlaqr23" -> Dim(r, p, "kbot") + 1              \* "sr and si must have length kbot+1"
 VecMin(r, p, o) ==
     CASE r \in Drv -> VecMinDrv(r, p, o)
       [] o = "tau" -> IF r \in QRf THEN Mn(r, p) ELSE Dim(r, p, "k")
@@ -326,7 +346,7 @@ IVecMin(r, p, o) == IF r \in {"Dgetrf", "Dgetf2"} THEN Mn(r, p)
                     ELSE IF r = "Dlapmr" THEN Dim(r, p, "m")           \* a permutation of the rows
                     ELSE Dim(r, p, "n")
 \* vectors whose length the documentation fixes exactly
-ExactNames == {"tau", "wr", "wi", "alpha", "beta"}
+ExactNames == {"tau", "wr", "wi", "alpha", "beta", "sr", "si"}
 \* boolean vectors (Dtrevc3: "selected must have length n if howmny == EVSelected, and it is not referenced otherwise")
 BVecs(r) == IF r = "Dtrevc3" THEN <<"selected">> ELSE <<>>
 BVecMin(r, p, o) == IF p.f[2] = 2 THEN Dim(r, p, "n") ELSE 0
@@ -363,6 +383,7 @@ MinLwork(r, p) ==
       [] r = "Dhseqr" -> Max(1, Dim(r, p, "n"))
       [] r = "Dlaqr04" -> IF Dim(r, p, "n") <= 11 THEN 1 ELSE Dim(r, p, "n")
       [] r = "Dtrevc3" -> Max(1, 3 * Dim(r, p, "n"))
+      [] r = "Dlaqr23" -> Max(1, 2 * Dim(r, p, "nw"))
 
 \* documented quick returns: nothing is addressed
 ZeroL(r, p) ==
@@ -382,6 +403,7 @@ ZeroL(r, p) ==
       [] r \in {"Dpbtrs", "Dgtsv", "Dpttrs"} -> Dim(r, p, "n") = 0 \/ Dim(r, p, "nrhs") = 0
       [] r \in Gsv -> FALSE                                  \* no documented quick return
       [] r \in Schur \cup {"Dtrevc3"} -> Dim(r, p, "n") = 0
+      [] r = "Dlaqr23" -> Dim(r, p, "n") = 0 \/ Dim(r, p, "nw") = 0
 IsQuery(r, p) == HasLwork(r) /\ p.lwork = -1
 
 (********************************** clauses **********************************)
